@@ -1365,9 +1365,13 @@ def _c11_worker(args):
                     return cbor.req_delete(pth, dexp), b""
                 return cbor.req_put(pth, pexp, len(body), b3.data(body)), body
 
-            dexp = rng.pick([None, b3.data(b"seed")])
-            pexp = rng.pick([None, b3.data(b"seed")])
-            body = rng.pick([b"", b"x", b"y" * 300 * 1024, cbor.req_put("evil", None, 1, b3.data(b"z")) + b"z" + cbor.req_delete("seed.txt", None)])
+            # expectations and bodies that would be TRUE of the file the path resolves to outside ROOT (the planted
+            # sentinels), and the "nothing to do" shape expected == declared hash: a shortcut taken before the path
+            # is vetted has something to find there
+            outside_contents = [b"secret", b"sibling", b"decoy with a probe name", b"seed"]
+            dexp = rng.pick([None, b3.data(b"seed")] + [b3.data(c) for c in outside_contents[:3]])
+            body = rng.pick([b"", b"x", b"y" * 300 * 1024, cbor.req_put("evil", None, 1, b3.data(b"z")) + b"z" + cbor.req_delete("seed.txt", None)] + outside_contents)
+            pexp = rng.pick([None, b3.data(b"seed"), b3.data(body), b3.data(body)])
             fr, tail_body = mk(path)
             while len(fr) - 4 > MAX_FRAME and len(path) > 16:
                 # the request itself must be a legal frame: trim the path until it fits
